@@ -143,7 +143,7 @@ impl Property for C07 {
     }
 
     fn cases(tier: Tier) -> u64 {
-        tier.pick(10_000, 1_000_000)
+        tier.pick(60_000, 1_000_000)
     }
 
     fn exhaustive_spaces(_tier: Tier) -> Vec<String> {
